@@ -372,14 +372,13 @@ impl Document {
                         *start_count += n;
                         start_tok.span.end = child_tok.span.end;
                         remove_these.push_back(cursor);
-                        cursor += 1;
                     } else {
                         break;
                     };
                 }
+            } else {
+                cursor += 1;
             }
-
-            cursor += 1;
         }
 
         self.tokens.remove_indices(remove_these);
@@ -453,14 +452,13 @@ impl Document {
                         *start_count += n;
                         start_tok.span.end = child_tok.span.end;
                         remove_these.push_back(cursor);
-                        cursor += 1;
                     } else {
                         break;
                     };
                 }
+            } else {
+                cursor += 1;
             }
-
-            cursor += 1;
         }
 
         self.tokens.remove_indices(remove_these);
